@@ -273,3 +273,50 @@ package codecs
 
 //@ property C14 functions: (*H265Packet).Unmarshal
 //@ property C09 functions: (*H265Packet).Unmarshal
+
+// ===== C15 / C09 / C10 (decoder side): H264Packet =====
+
+//@ global annexbNALUStartCode = bytes(0, 0, 0, 1)
+//@ global naluStartCode = bytes(0, 0, 1)
+
+// framing of one NAL unit: 4-byte big-endian length (AVC) or a 4-byte start code (Annex B), then the unit
+//@ spec (*H264Packet).doPackaging
+//@   requires !sameobj(buf, nalu)
+//@   modifies buf[*cap]
+//@   ensures length [C10,C15,C09]: len(result0) == len(buf) + 4 + len(nalu) && result0 != nil
+//@   ensures prefix_kept [C10,C15]: eqseq(result0, 0, buf, 0, len(buf))
+//@   ensures avc_length [C10,C15]: p.IsAVC ==> be32(result0, len(buf)) == len(nalu) % 4294967296
+//@   ensures annexb_start_code [C10]: !p.IsAVC ==> be32(result0, len(buf)) == 1
+//@   ensures unit [C10,C15]: eqseq(result0, len(buf) + 4, nalu, 0, len(nalu))
+//@   ensures owned [C09]: buf == nil ==> fresh(result0)
+//@ end
+
+//@ pure bool h264IsFUA(p) = bits(p[0], 4, 0) == 28
+//@ spec (*H264Packet).parseBody
+//@   requires p.fuaBuffer != nil ==> !sameobj(p.fuaBuffer, payload)
+//@   modifies p.fuaBuffer, p.fuaBuffer[*cap]
+//@   loop 0: invariant pos [C09,C10]: 1 <= currOffset && currOffset <= len(payload) && result != nil && fresh(result) && len(result) >= 0
+//@   loop 0: invariant buffer_kept [C09,C15]: sameobj(p.fuaBuffer, old(p.fuaBuffer)) && off(p.fuaBuffer) == off(old(p.fuaBuffer)) && len(p.fuaBuffer) == len(old(p.fuaBuffer))
+//@   loop 0: decreases len(payload) - currOffset
+//@   ensures empty [C09,C10]: len(payload) == 0 ==> errIs(err, errShortPacket)
+//@   ensures single [C10]: len(payload) > 0 && bits(payload[0], 4, 0) >= 1 && bits(payload[0], 4, 0) <= 23 ==> err == nil && len(result0) == 4 + len(payload) && eqseq(result0, 4, payload, 0, len(payload)) && (p.IsAVC ==> be32(result0, 0) == len(payload) % 4294967296)
+//@   ensures unhandled [C10,C09]: len(payload) > 0 && (bits(payload[0], 4, 0) == 0 || (bits(payload[0], 4, 0) >= 25 && bits(payload[0], 4, 0) != 28)) ==> errIs(err, errUnhandledNALUType)
+//@   ensures fua_short [C09,C15]: len(payload) == 1 && h264IsFUA(payload) ==> errIs(err, errShortPacket)
+//@   ensures fua_start [C15]: len(payload) >= 2 && h264IsFUA(payload) && bits(payload[1], 7, 7) == 1 && bits(payload[1], 6, 6) == 0 ==> err == nil && len(result0) == 0 && len(p.fuaBuffer) == len(payload) - 2 && eqseq(p.fuaBuffer, 0, payload, 2, len(payload) - 2)
+//@   ensures fua_start_end [C15]: len(payload) >= 2 && h264IsFUA(payload) && bits(payload[1], 7, 7) == 1 && bits(payload[1], 6, 6) == 1 ==> err == nil && p.fuaBuffer == nil && len(result0) == 4 + 1 + len(payload) - 2 && int(result0[4]) == bits(payload[0], 6, 5) * 32 + bits(payload[1], 4, 0) && eqseq(result0, 5, payload, 2, len(payload) - 2)
+//@   ensures fua_continue [C15,C10]: len(payload) >= 2 && h264IsFUA(payload) && bits(payload[1], 7, 7) == 0 && bits(payload[1], 6, 6) == 0 ==> err == nil && len(result0) == 0 && len(p.fuaBuffer) == len(old(p.fuaBuffer)) + len(payload) - 2 && eqseq(p.fuaBuffer, len(old(p.fuaBuffer)), payload, 2, len(payload) - 2)
+//@   ensures fua_end [C15,C10]: len(payload) >= 2 && h264IsFUA(payload) && bits(payload[1], 7, 7) == 0 && bits(payload[1], 6, 6) == 1 ==> err == nil && p.fuaBuffer == nil && len(result0) == 4 + 1 + len(old(p.fuaBuffer)) + len(payload) - 2 && int(result0[4]) == bits(payload[0], 6, 5) * 32 + bits(payload[1], 4, 0) && eqseq(result0, 5 + len(old(p.fuaBuffer)), payload, 2, len(payload) - 2)
+//@   ensures buffer_owned [C09,C15]: p.fuaBuffer == nil || fresh(p.fuaBuffer) || (sameobj(p.fuaBuffer, old(p.fuaBuffer)) && old(p.fuaBuffer) != nil)
+//@   ensures result_owned [C09]: err == nil ==> fresh(result0)
+//@ end
+
+//@ spec (*H264Packet).Unmarshal
+//@   requires p.fuaBuffer != nil ==> !sameobj(p.fuaBuffer, payload)
+//@   modifies p.fuaBuffer, p.fuaBuffer[*cap]
+//@   ensures zero_alloc [C09]: p.zeroAllocation ==> err == nil && sameobj(result0, payload) && len(result0) == len(payload)
+//@   ensures buffer_owned [C09,C15]: p.fuaBuffer == nil || fresh(p.fuaBuffer) || (sameobj(p.fuaBuffer, old(p.fuaBuffer)) && old(p.fuaBuffer) != nil)
+//@ end
+
+//@ spec (*H264Packet).IsPartitionHead
+//@   ensures head [C10,C09]: result0 <==> (len(payload) >= 2 && ((bits(payload[0], 4, 0) == 28 || bits(payload[0], 4, 0) == 29) ==> bits(payload[1], 7, 7) == 1))
+//@ end
